@@ -69,10 +69,12 @@ where
     /// [flushing it](BufBitWriter::flush).
     pub fn into_inner(mut self) -> Result<WW, <Self as BitWrite<E>>::Error> {
         self.flush()?;
-        // SAFETY: forget(self) prevents double dropping backend
-        let backend = unsafe { ptr::read(&self.backend) };
-        mem::forget(self);
-        Ok(backend)
+        // SAFETY: self is wrapped in a ManuallyDrop before the backend is
+        // read out of it, so the backend is not dropped twice (forgetting
+        // self after the read would move, and thus invalidate, a backend
+        // that owns a Box)
+        let this = mem::ManuallyDrop::new(self);
+        Ok(unsafe { ptr::read(&this.backend) })
     }
 }
 
